@@ -28,6 +28,7 @@ RULE = ("integer data tensors 3x3x2 .. 4x3x2, 2-way and 4-way (<= 24 entries) he
         "fixsigns on/off; non-trivial = data not all-equal; distinct = distinct (op,args). Cases whose exact Gram-Hadamard matrix has "
         "|det|/prod(diag) < 1e-3 in the first exact sweep are skipped (ill-conditioned: float drift, not a defect). Tolerance 1e-6 relative.")
 TOL = "tol6"
+SHARD = 2
 COND_MIN = F(1, 1000)
 
 
@@ -96,7 +97,7 @@ def gen_cases(rng, tier):
             init = {"w": [1] * R, "f": _rand_factors(rng, shape, R)}
             add(spec, R, init, list(perm), None, [1, 2, 3], rng.choice([0.0, 1e-4]), rng.random() < 0.5)
     # random stream
-    for _ in range(60 if big else 14):
+    for _ in range(260 if big else 44):
         kind = rng.choice(kinds)
         shape = rng.choice(SHAPES3 if rng.random() < 0.75 else SHAPES_OTHER)
         N = len(shape)
@@ -355,6 +356,17 @@ def oracle(c, o):
     nx2 = sum(x * x for x in X)
     dims = _dims(a)
     prev = None
+    fits = [r["fit"] for r in o["runs"]]
+    if all(not isinstance(f, str) for f in fits) and [r["m"] for r in o["runs"]] == list(range(1, len(fits) + 1)):
+        stol = F(a["stoptol"])
+        for r in o["runs"]:
+            exp = r["m"] - 1
+            for kk in range(1, r["m"]):
+                if abs(F(fits[kk - 1]) - F(fits[kk])) < stol:
+                    exp = kk
+                    break
+            if r["iters"] != exp:
+                return f"run limited to {r['m']} iterations reports iters={r['iters']} but the stop rule on the fit trace gives {exp}"
     for r in o["runs"]:
         k = r["model"]
         if not _numeric(k):
